@@ -168,6 +168,26 @@ func checkReuse(c Case) error {
 			return harness.Violatef("c17/bytes-changes-stream", "asking for Bytes in the middle of the history changes what the finished stream decodes to: %s", d)
 		}
 	}
+	// ---- Encoder reused as the Destination of a Decode (a transcoder that keeps its Encoder)
+	{
+		var usedD, freshD encode.Encoder
+		usedD.HighResolutionCoordinates = c.AHi
+		ops.ApplyAll(&usedD, c.AOps)
+		usedD.HighResolutionCoordinates = false
+		eu := decode.Decode(&usedD, append([]byte{}, want...))
+		ef := decode.Decode(&freshD, append([]byte{}, want...))
+		bu, eub := usedD.Bytes()
+		bf, efb := freshD.Bytes()
+		if ef != nil || efb != nil {
+			return harness.Violatef("c17/harness", "B does not transcode on a fresh Encoder: %v %v", ef, efb)
+		}
+		if eu != nil || eub != nil {
+			return harness.Violatef("c17/encoder-error-survives-reset", "after history A, decoding B into the same Encoder fails: %v %v", eu, eub)
+		}
+		if !bytes.Equal(bu, bf) {
+			return harness.Violatef("c17/encoder-state-leak", "Encoder reused as the destination of a Decode after history A holds different bytes for B:\n reused %x\n fresh  %x", bu, bf)
+		}
+	}
 	var fresh2 encode.Encoder
 	if w2, _ := encodeB(&fresh2, c); !bytes.Equal(w2, want) {
 		return harness.Violatef("c17/encoder-nondeterministic", "two fresh Encoders give different bytes for the same calls")
@@ -305,7 +325,7 @@ func pixelPart(c Case, rect image.Rectangle, aBytes, want []byte, drawsInA int) 
 	return nil
 }
 
-var subReuse = harness.Define("reuse", "pairs (earlier history A, later well-formed program B): A = well-formed, protocol-breaking, or cut mid-path/mid-run histories with high-resolution on and registers, selectors, LOD and smooth-curve state dirtied (also raw mutated streams that fail half-way); B relies on defaults (unwritten CREG/NREG, no selector writes, default LOD, smooth first op). Encoder after A+Reset == fresh (bytes), encoding twice and Bytes twice equal; Renderer (driven directly, reused through Decode; A drawn into the same, another or an empty rectangle; one-shot draw operator re-armed or armed for A only) == fresh (rasteriser log incl. paints, and pixels with raster/vec); non-trivial = A leaves dirty state (open path, error, LOD, or all registers written)", checkReuse)
+var subReuse = harness.Define("reuse", "pairs (earlier history A, later well-formed program B): A = well-formed, protocol-breaking, or cut mid-path/mid-run histories with high-resolution on and registers, selectors, LOD and smooth-curve state dirtied (also raw mutated streams that fail half-way); B relies on defaults (unwritten CREG/NREG, no selector writes, default LOD, smooth first op). Encoder after A+Reset == fresh (bytes; also when B arrives through Decode, and when B has no instructions at all), encoding twice and Bytes twice equal; Renderer (driven directly, reused through Decode; A drawn into the same, another or an empty rectangle; one-shot draw operator re-armed or armed for A only) == fresh (rasteriser log incl. paints, and pixels with raster/vec); non-trivial = A leaves dirty state (open path, error, LOD, or all registers written)", checkReuse)
 
 func moderate(t *rapid.T, l string) float32 { return gen.Moderate(t, l, 40) }
 
@@ -440,6 +460,14 @@ func TestReuse(t *testing.T) {
 			c.BPalette = gen.Palette(t, "bpal", true)
 		}
 		c.BOps, c.BHi = genB(t)
+		switch rapid.IntRange(0, 11).Draw(t, "bsmall") {
+		case 0: // a graphic that is its metadata and nothing else
+			c.BOps, c.BHi = nil, nil
+			labels = append(labels, "B-has-no-instructions-at-all")
+		case 1: // ... or styling instructions only, no path
+			c.BOps, c.BHi = []ops.Op{ops.OpSetCSel(3), ops.OpSetNReg(1, false, 0.5)}, nil
+			labels = append(labels, "B-has-styling-instructions-only")
+		}
 		if rapid.IntRange(0, 3).Draw(t, "areset") == 0 {
 			// A ends with a Reset to B's viewBox moved elsewhere (same size, same scale, other origin)
 			dx := float32(rapid.IntRange(-30, 30).Draw(t, "avdx"))
